@@ -95,6 +95,9 @@ func ruleR19a(c *Ctx) {
 	c.floor("R19a", "parser (tree) literals", 3, nlit)
 	// (2) user-caused failures are raised through the positioned constructor only
 	handlers := recoverHandlers(c, "parse")
+	for fn := range deferredRecoverFuncs(c, "parse") {
+		handlers[fn] = true // what a handler re-raises is R19g's business
+	}
 	npanic := 0
 	for _, fd := range c.allFuncDecls("parse") {
 		fn := info.Defs[fd.Name].(*types.Func)
@@ -326,6 +329,8 @@ func ruleR19c(c *Ctx) {
 	}
 	// errFromNode: Filename/LineNumber/ColNumber get the same template name; line/col the same node
 	var nameArgs, nodeArgs []string
+	nodeIsMark := true
+	markFld := currentNodeField(c)
 	ast.Inspect(efn.Body, func(x ast.Node) bool {
 		if ce, ok := x.(*ast.CallExpr); ok {
 			if cal := calleeFunc(ce, info); cal != nil && cal.Pkg() != nil && strings.HasSuffix(cal.Pkg().Path(), "/template") {
@@ -334,6 +339,9 @@ func ruleR19c(c *Ctx) {
 					nameArgs = append(nameArgs, exprKey(ce.Args[0]))
 					if len(ce.Args) > 1 {
 						nodeArgs = append(nodeArgs, exprKey(ce.Args[1]))
+						if markFld == nil || fieldOf(ce.Args[1], info) != markFld {
+							nodeIsMark = false
+						}
 					}
 				}
 			}
@@ -348,7 +356,7 @@ func ruleR19c(c *Ctx) {
 		}
 		return len(s) > 0
 	}
-	c.check(len(nameArgs) == 3 && same(nameArgs) && len(nodeArgs) == 2 && same(nodeArgs) && strings.HasSuffix(nodeArgs[0], ".node"), "R19c", "soyhtml.state.errFromNode#one-template-one-node", efn.Pos(),
+	c.check(len(nameArgs) == 3 && same(nameArgs) && len(nodeArgs) == 2 && same(nodeArgs) && nodeIsMark, "R19c", "soyhtml.state.errFromNode#one-template-one-node", efn.Pos(),
 		"file, line and column are looked up with one template name and the state's current node",
 		fmt.Sprintf("file/line/column are looked up with different names %v or nodes %v", nameArgs, nodeArgs))
 	// errRecover: every assignment through errp is built by errFromNode
@@ -475,21 +483,27 @@ func ruleR19e(c *Ctx) {
 	info := p.TypesInfo
 	stObj := p.Types.Scope().Lookup("state")
 	wfd := c.mustFunc("soyhtml", "state.walk")
-	atfd := c.mustFunc("soyhtml", "state.at")
-	if stObj == nil || wfd == nil || atfd == nil {
+	if stObj == nil || wfd == nil {
 		return
 	}
-	walkFn, atFn := info.Defs[wfd.Name], info.Defs[atfd.Name]
-	var nodeFld *types.Var
-	st := stObj.Type().Underlying().(*types.Struct)
-	for i := 0; i < st.NumFields(); i++ {
-		if st.Field(i).Name() == "node" {
-			nodeFld = st.Field(i)
+	nodeFld := currentNodeField(c)
+	if nodeFld == nil {
+		c.fatalf("anchor: the current-node field of soyhtml.state (its one field of type ast.Node) not found")
+		return
+	}
+	// the setter of the mark, if the walker uses one: a method of state whose whole body assigns the field
+	var atfd *ast.FuncDecl
+	for _, d := range c.allFuncDecls("soyhtml") {
+		if d.Recv != nil && len(d.Body.List) == 1 {
+			if as, ok := d.Body.List[0].(*ast.AssignStmt); ok && len(as.Lhs) == 1 && fieldOfExpr(as.Lhs[0], info) == nodeFld {
+				atfd = d
+			}
 		}
 	}
-	if nodeFld == nil {
-		c.fatalf("anchor: field node of soyhtml.state not found")
-		return
+	walkFn := info.Defs[wfd.Name]
+	var atFn types.Object
+	if atfd != nil {
+		atFn = info.Defs[atfd.Name]
 	}
 	nr := newNoRet(c)
 	n := 0
@@ -507,7 +521,7 @@ func ruleR19e(c *Ctx) {
 		marks := false
 		ast.Inspect(fd.Body, func(x ast.Node) bool {
 			if call, ok := x.(*ast.CallExpr); ok {
-				if cal := calleeFunc(call, info); (cal == walkFn || cal == atFn) && recvIdentObj(call, info) == recvObj {
+				if cal := calleeFunc(call, info); (types.Object(cal) == walkFn || (atFn != nil && types.Object(cal) == atFn)) && recvIdentObj(call, info) == recvObj {
 					marks = true
 				}
 			}
@@ -532,7 +546,7 @@ func ruleR19e(c *Ctx) {
 			}
 			ast.Inspect(nd, func(x ast.Node) bool {
 				if call, ok := x.(*ast.CallExpr); ok {
-					if cal := calleeFunc(call, info); (cal == walkFn || cal == atFn) && recvIdentObj(call, info) == recvObj {
+					if cal := calleeFunc(call, info); (types.Object(cal) == walkFn || (atFn != nil && types.Object(cal) == atFn)) && recvIdentObj(call, info) == recvObj {
 						stt["m"] = dirty
 					}
 				}
@@ -631,6 +645,9 @@ func ruleR19g(c *Ctx) {
 	}
 	info := p.TypesInfo
 	handlers := recoverHandlers(c, "parse")
+	for fn := range deferredRecoverFuncs(c, "parse") {
+		handlers[fn] = true
+	}
 	n := 0
 	for _, fd := range c.allFuncDecls("parse") {
 		fn, _ := info.Defs[fd.Name].(*types.Func)
@@ -901,4 +918,32 @@ func ruleR19j(c *Ctx) {
 		return true
 	})
 	c.floor("R19j", "writer of the entry state", 1, n)
+}
+
+// currentNodeField: the field of the renderer's state that marks the node being executed — the one field of
+// soyhtml.state whose type is the ast.Node interface itself (found by its role, whatever it is called).
+func currentNodeField(c *Ctx) *types.Var {
+	p, ap := c.pkg("soyhtml"), c.pkg("ast")
+	if p == nil || ap == nil {
+		return nil
+	}
+	stObj := p.Types.Scope().Lookup("state")
+	nodeT := ap.Types.Scope().Lookup("Node")
+	if stObj == nil || nodeT == nil {
+		return nil
+	}
+	st, ok := stObj.Type().Underlying().(*types.Struct)
+	if !ok {
+		return nil
+	}
+	var found *types.Var
+	for i := 0; i < st.NumFields(); i++ {
+		if types.Identical(st.Field(i).Type(), nodeT.Type()) {
+			if found != nil {
+				return nil // ambiguous
+			}
+			found = st.Field(i)
+		}
+	}
+	return found
 }
